@@ -41,3 +41,21 @@ Example C04_threshold_is_inclusive :
   keepb (mkThr 0 0 0 0 5 0 0) (0, 0, 0, 1 # 2, 1, 1) 10 10 10 = true /\
   keepb (mkThr 0 0 0 0 (51 # 10) 0 0) (0, 0, 0, 1 # 2, 1, 1) 10 10 10 = false.
 Proof. split; vm_compute; reflexivity. Qed.
+
+(* "after every transform": in the model of the top-level pipeline object (model/Framework.v [run_top], tied to
+   Compose.__call__ by the scheduling correspondence with the checks recorded in the trace) the per-transform check
+   follows EACH item of the pipeline exactly once -- a container (Sequential, OneOf, SomeOf, a nested Compose) like a
+   bare transform -- and switching it on changes nothing in what the items do (same data, same draws, same leaves);
+   switched off, the pipeline is the plain Compose schedule of C15 *)
+From DV.model Require Import Framework.
+From DV.proofs Require Import TopCheck.
+Theorem C04_one_check_after_every_item_of_the_pipeline :
+  (forall data rk kids d ds d' tr ds',
+     top_seq data true rk kids d ds = Some (d', tr, ds') ->
+     exists trs : list (list nat),
+       seq_with data rk kids d ds = Some (d', List.concat trs, ds') /\ List.length trs = List.length kids /\
+       tr = List.concat (map (fun t => t ++ [O]) trs)) /\
+  (forall data sem p kids force d ds,
+     run_top data sem false p kids force d ds = run data sem (Comp p kids) force d ds).
+Proof. split; [intros data; apply top_seq_same_items | apply run_top_off]. Qed.
+Print Assumptions C04_one_check_after_every_item_of_the_pipeline.
